@@ -145,9 +145,14 @@ def run_episode(spec, uid="E"):
                     with (mock.patch.object(Path, "iterdir", shuffled) if it.get("shuffle") is not None
                           else mock.patch.object(Path, "iterdir", real_iterdir)):
                         if it.get("entry", "path") == "module":
+                            # the entry point is given module OBJECTS: what counts is where their files are, not under
+                            # which name they happen to have been imported (a package below the root may have been
+                            # imported as a top-level package through its parent directory on sys.path)
+                            how = it.get("modname", "qualified")
                             rm = types.ModuleType(proj["root"])
                             rm.__file__ = os.path.join(root_path, "__init__.py")
-                            mm = types.ModuleType(".".join(mpath))
+                            mm = types.ModuleType(".".join(mpath) if how == "qualified" else mpath[-1] if how == "last"
+                                                  else "some_alias")
                             mm.__file__ = os.path.join(module_path, "__init__.py")
                             ev = get_evaluable_architecture_for_module_objects(rm, mm, **kw)
                         else:
